@@ -36,6 +36,16 @@ Theorem listing_restores_coherence : forall content c be t ord,
 Proof. exact listing_restores_coherence_lemma. Qed.
 Print Assumptions listing_restores_coherence.
 
+
+(* ... and the listing removes nothing else: a cached file that equals the repository file
+   stays cached (the cache keeps working as a cache). *)
+Theorem listing_keeps_good : forall content c be t ord i d,
+  is_cacheable t = true -> BeHonest content be ->
+  find (t, i) (files c) = Some d -> find (t, i) be = Some d ->
+  find (t, i) (files (cch (snd (cb_list (mkst c be) t ord)))) = Some d.
+Proof. exact listing_keeps_good_lemma. Qed.
+Print Assumptions listing_keeps_good.
+
 (* The pattern every command uses for snapshots and index files: list, then any number of
    operations of this handle on files of that type — transparent from ANY cache state of
    the fault list. *)
